@@ -99,6 +99,9 @@ class _CommitLogEntry:
     version: int
     keys_written: frozenset[str]
     keys_read: frozenset[str]
+    # (key, value the store held before this commit overwrote it); lets
+    # transactions that began earlier keep reading their snapshot
+    prior_values: tuple[tuple[str, Any], ...] = ()
 
 
 # ---------------------------------------------------------------------------
@@ -162,6 +165,10 @@ class StorageTransaction:
 
         # Read from underlying store
         value = yield from self._manager._store.get(key)
+        if self._isolation != IsolationLevel.READ_COMMITTED:
+            # The store holds the latest committed values; undo what was
+            # committed after this transaction's snapshot was taken.
+            value = self._manager._snapshot_value(key, self._snapshot_version, value)
         return value
 
     def write(self, key: str, value: Any) -> Generator[float]:
@@ -199,7 +206,10 @@ class StorageTransaction:
             logger.debug("[tx-%d] Aborted due to conflict", self._tx_id)
             return False
 
-        # Apply writes
+        # Apply writes (remembering what they overwrite, for snapshot reads)
+        prior_values = tuple(
+            (key, self._manager._store.get_sync(key)) for key in self._write_set
+        )
         for key, value in self._write_set.items():
             self._manager._store.put_sync(key, value)
 
@@ -210,6 +220,7 @@ class StorageTransaction:
             version=self._manager._version,
             keys_written=frozenset(self._write_set.keys()),
             keys_read=frozenset(self._read_set),
+            prior_values=prior_values,
         )
         self._manager._commit_log.append(entry)
 
@@ -397,6 +408,21 @@ class TransactionManager(Entity):
                     return True
 
         return False
+
+    def _snapshot_value(self, key: str, snapshot_version: int, current: Any) -> Any:
+        """Value of ``key`` as of ``snapshot_version``.
+
+        ``current`` is what the store returned.  The earliest commit after the
+        snapshot that wrote the key recorded the value it replaced, which is
+        the snapshot's value; if no later commit wrote the key, ``current`` is.
+        """
+        for entry in self._commit_log:
+            if entry.version <= snapshot_version or key not in entry.keys_written:
+                continue
+            for written_key, prior in entry.prior_values:
+                if written_key == key:
+                    return prior
+        return current
 
     def _record_duration(self, start_time_s: float) -> None:
         """Record transaction duration for stats."""
